@@ -215,7 +215,7 @@ fn code_of(result: Result<i64, futures::channel::oneshot::Canceled>, expected: i
 pub fn exec_op(ctx: &Arc<Ctx>, op: &OpSpec, slots: &mut Slots) -> i64 {
     ctx.sched.obs("call", op.id, 0);
     let result = catch_unwind(AssertUnwindSafe(|| exec_inner(ctx, op, slots)));
-    let code = match result { Ok(code) => code, Err(_) => 2 };
+    let code = match result { Ok(code) => code, Err(_) => { crate::runtime::note_caught(); 2 } };
     ctx.sched.yield_now("ret");
     ctx.sched.obs("ret", op.id, code);
     code
